@@ -121,6 +121,15 @@ def likelihood_chain(c, kind, m=2, n=2, noise='scalar'):
     elif kind == 'gradient':
         A = c.mat('A', m, n)
         model = cuqi.model.Model(lambda v: A @ (v ** 2), m, n, gradient=lambda direction, v: (A * (2 * v)).T @ direction)
+    elif kind.startswith('image_domain'):
+        # unknown is a 2x2 image stored column-major (order='F') or row-major; adjoint / gradient callables return IMAGES
+        order = kind.split(':')[1]; n = 4; m = 4
+        Lm = c.mat('L', 2, 2); Rm = c.mat('R', 2, 2)
+        gd = cuqi.geometry.Image2D((2, 2), order=order)
+        fwd = lambda X: (Lm @ X @ Rm).ravel(); adj = lambda y: Lm.T @ y.reshape(2, 2) @ Rm.T
+        if kind.endswith('linear'): model = cuqi.model.LinearModel(fwd, adj, range_geometry=m, domain_geometry=gd)
+        else: model = cuqi.model.Model(lambda X: (Lm @ (X + X ** 3) @ Rm).ravel(), m, gd, gradient=lambda direction, X: (1 + 3 * X ** 2) * (Lm.T @ direction.reshape(2, 2) @ Rm.T))
+        x = c.vec('x', n); y = c.vec('y', m)
     elif kind in ('step_domain:matrix', 'step_domain:jacobian'):
         # domain geometry with a non-identity parameter-to-function map and no derivative of its own (2 steps on 4 nodes):
         # the gradient must be refused or be the derivative w.r.t. the PARAMETERS
@@ -235,6 +244,9 @@ def jobs(tier):
                 # a refusal (exception) is an admissible outcome for C03; a returned value must be the derivative
                 J.append(Job(f'Gaussian.gradient:{param}:{form}:n={n}', lambda c, p=param, f=form, n=n: gaussian_gradient(c, p, f, n), 'Pbox',
                              [f'{D}._gaussian:Gaussian._gradient'] + Dg, rtol=1e-4, timeout=300, allow_exc=True))
+    for kind in ('image_domain:F:linear', 'image_domain:F:nonlinear', 'image_domain:C:linear'):
+        J.append(Job(f'Likelihood.gradient:chain_rule:{kind}', lambda c, k=kind: likelihood_chain(c, k), 'Pbox',
+                     ['cuqi.model._model:Model.gradient', 'cuqi.likelihood._likelihood:Likelihood._gradient', 'cuqi.geometry._geometry:Image2D.fun2par'], rtol=1e-4, timeout=300))
     for kind in ('step_domain:matrix', 'step_domain:jacobian'):
         J.append(Job(f'Likelihood.gradient:non_identity_domain_geometry:{kind}', lambda c, k=kind: likelihood_chain(c, k), 'Pbox',
                      ['cuqi.model._model:Model._check_gradient_can_be_computed', 'cuqi.model._model:Model.gradient', 'cuqi.likelihood._likelihood:Likelihood._gradient'], rtol=1e-4, timeout=300))
